@@ -358,10 +358,13 @@ func judge(t vlib.TB, test string, s Scenario, admit, terminate bool, rec []byte
 		if status != 0 || !haveRes || res.Panicked || !res.Returned {
 			t.Fatalf("C12 %s: the call must return normally (admitted=%v): status=%d result=%+v stderr=%s", s, admit, status, res, stderr)
 		}
-		if admit && !complete {
+		// whether a numeric level that is neither built in nor registered is admitted is not this property's business
+		// (nor any other's: C01 quantifies over built-in and registered levels): only "it never terminates" is judged
+		known := (s.R >= 0 && s.R <= int(slog.FailLevel)) || slog.Level(s.R) == custPanicLike
+		if known && admit && !complete {
 			t.Fatalf("C12 %s: admitted, non-terminating: exactly one complete record expected, destination holds %d: %q", s, nrec, rec)
 		}
-		if !admit && len(rec) != 0 {
+		if known && !admit && len(rec) != 0 {
 			t.Fatalf("C12 %s: not admitted but something was written: %q", s, rec)
 		}
 	}
